@@ -99,6 +99,9 @@ def cases(ctx):
             if rng.random() < 0.3 and n:
                 r = c['table'][rng.randint(1, n)]
                 del r[rng.randrange(len(r)):]
+            if rng.random() < 0.25 and n:
+                # a row longer than the header: its surplus cells have no field and are not written by tojson
+                c['table'][rng.choice([1, rng.randint(1, n)])].extend(rng.choice([['extra'], [None, 1]]))
             c['appends'] = 0
             c['output_header'] = rng.random() < 0.5
             c['jsonargs'] = rng.choice([{}, {}, {'indent': 2}, {'sort_keys': True}, {'ensure_ascii': False}, {'separators': (',', ':')}])
